@@ -522,13 +522,15 @@ fn lit_expr_sexp(e: &syn::Expr) -> Result<Sexp, String> {
     match e {
         Expr::Paren(p) => lit_expr_sexp(&p.expr),
         Expr::Group(g) => lit_expr_sexp(&g.expr),
+        // (at top level of a literal: `quote!(#en)` of an enum literal written where no enum type is expected prints the
+        // name as a string literal; the model calls this `ident`)
         Expr::Lit(l) => match &l.lit {
             syn::Lit::Bool(b) => Ok(tagged("bool", vec![boolean(b.value)])),
             // (`quote!` prints an `f64` without a fraction as `1f64`: digits of an integer with a float suffix)
             syn::Lit::Int(i) if i.suffix().starts_with('f') => Ok(tagged("float", vec![st(i.base10_digits())])),
             syn::Lit::Int(i) => Ok(tagged("int", vec![atom(i.base10_digits())])),
             syn::Lit::Float(f) => Ok(tagged("float", vec![st(f.base10_digits())])),
-            syn::Lit::Str(s) => Ok(tagged("bare-str", vec![st(&s.value())])),
+            syn::Lit::Str(s) => Ok(tagged("ident", vec![st(&s.value())])),
             other => Err(format!("unmodelled-construct: literal {}", nospace(other))),
         },
         Expr::Unary(u) if matches!(u.op, syn::UnOp::Neg(_)) => match lit_expr_sexp(&u.expr)? {
@@ -537,7 +539,7 @@ fn lit_expr_sexp(e: &syn::Expr) -> Result<Sexp, String> {
             other => Err(format!("unmodelled-construct: negated {}", other.render())),
         },
         Expr::MethodCall(m) if m.method == "to_string" && m.args.is_empty() => match lit_expr_sexp(&m.receiver)? {
-            s if s.head() == Some("bare-str") => Ok(tagged("str", vec![s.items()[1].clone()])),
+            s if s.head() == Some("ident") => Ok(tagged("str", vec![s.items()[1].clone()])),
             other => Err(format!("unmodelled-construct: to_string on {}", other.render())),
         },
         Expr::Path(p) => {
